@@ -7,6 +7,7 @@ import (
 
 	"verifharness/common"
 	"verifharness/hdr"
+	"verifharness/netx"
 	"verifharness/pow"
 )
 
@@ -39,8 +40,12 @@ func dispatch(prop, tier string, seed int64) int {
 	switch prop {
 	case "C02":
 		return pow.RunC02(tier, seed)
+	case "C14":
+		return netx.RunC14(tier, seed)
+	case "C13":
+		return netx.RunC13(tier, seed)
 	case "C03":
-		return pow.RunC03(tier, seed, nil)
+		return pow.RunC03(tier, seed, netx.C03Peer)
 	}
 	fmt.Printf("no check for %s\n", prop)
 	return 2
